@@ -83,9 +83,9 @@ pub fn u32_from_be_bytes(b: [u8; 4]) -> (r: u32)
     ensures r as int == ((b[0] as int * 256 + b[1] as int) * 256 + b[2] as int) * 256 + b[3] as int,
 { u32::from_be_bytes(b) }
 
-/// native-endian 16 bit word; the checksum proofs are parametric in the byte order through `ne16`
-pub open spec fn ne16(lo: u8, hi: u8) -> int { if cfg_le() { lo as int + 256 * (hi as int) } else { 256 * (lo as int) + hi as int } }
-pub uninterp spec fn cfg_le() -> bool;
+/// native-endian = little-endian 16 bit word (stated assumption: little-endian target; the three `from_ne_bytes`
+/// value specs are proved for this target by full-domain Kani harnesses in kani/src/h_vxlib.rs)
+pub open spec fn ne16(lo: u8, hi: u8) -> int { lo as int + 256 * (hi as int) }
 
 #[verifier::external_body]
 pub fn u16_from_ne_bytes(b: [u8; 2]) -> (r: u16)
@@ -94,17 +94,31 @@ pub fn u16_from_ne_bytes(b: [u8; 2]) -> (r: u16)
 
 #[verifier::external_body]
 pub fn u32_from_ne_bytes(b: [u8; 4]) -> (r: u32)
-    ensures r as int == if cfg_le() { ne16(b[0], b[1]) + 65536 * ne16(b[2], b[3]) } else { 65536 * ne16(b[0], b[1]) + ne16(b[2], b[3]) },
+    ensures r as int == ne16(b[0], b[1]) + 65536 * ne16(b[2], b[3]),
 { u32::from_ne_bytes(b) }
 
 #[verifier::external_body]
 pub fn u64_from_ne_bytes(b: [u8; 8]) -> (r: u64)
-    ensures r as int == if cfg_le() {
-            ne16(b[0], b[1]) + 65536 * (ne16(b[2], b[3]) + 65536 * (ne16(b[4], b[5]) + 65536 * ne16(b[6], b[7])))
-        } else {
-            ((ne16(b[0], b[1]) * 65536 + ne16(b[2], b[3])) * 65536 + ne16(b[4], b[5])) * 65536 + ne16(b[6], b[7])
-        },
+    ensures r as int == ne16(b[0], b[1]) + 65536 * (ne16(b[2], b[3]) + 65536 * (ne16(b[4], b[5]) + 65536 * ne16(b[6], b[7]))),
 { u64::from_ne_bytes(b) }
+
+#[verifier::external_body]
+pub fn overflowing_add_u64(a: u64, b: u64) -> (r: (u64, bool))
+    ensures (a as int + b as int >= 0x1_0000_0000_0000_0000) ==> r.1 && r.0 as int == a as int + b as int - 0x1_0000_0000_0000_0000,
+            ((a as int) + (b as int)) < 0x1_0000_0000_0000_0000int ==> !r.1 && r.0 as int == a as int + b as int,
+{ a.overflowing_add(b) }
+
+#[verifier::external_body]
+pub fn overflowing_add_u32(a: u32, b: u32) -> (r: (u32, bool))
+    ensures (a as int + b as int >= 0x1_0000_0000) ==> r.1 && r.0 as int == a as int + b as int - 0x1_0000_0000,
+            ((a as int) + (b as int)) < 0x1_0000_0000int ==> !r.1 && r.0 as int == a as int + b as int,
+{ a.overflowing_add(b) }
+
+/// `u16::to_be` on a little-endian target: byte swap
+#[verifier::external_body]
+pub fn u16_to_be(x: u16) -> (r: u16)
+    ensures r as int == (x as int % 256) * 256 + x as int / 256,
+{ x.to_be() }
 
 pub proof fn lemma_u8_and_le(x: u8, m: u8) ensures (x & m) <= m { assert((x & m) <= m) by(bit_vector); }
 
